@@ -314,6 +314,11 @@ def loop(R):
         oks = all(all_paths_pass(g, tsucc, stores, [r], skip_edge=nx) for r in rets) if rets else False
         R.ob('C05.loop', 'rejected state is stored', oks, 'REJECT exit does not store the state back (a later chunk '
              'would be accepted)', func=f, node=rt.ast)
+    # no exit bypasses the scan: every return is behind the loop test
+    for rn in [n for n in g.live_nodes() if n.kind == 'stmt' and isinstance(n.ast, ast.Return)]:
+        R.ob('C05.loop', 'no verdict without scanning', all_paths_pass(g, [g.entry], [t], [rn], skip_edge=nx),
+             'validate() can return a verdict without stepping the DFA over the chunk (e.g. a fast path that ignores '
+             'the pending state)', func=f, node=rn.ast)
     # normal exit
     fsucc = succs(t, 'false')
     rets = [n for n in g.reachable(fsucc, skip_edge=nx) if n.kind == 'stmt' and isinstance(n.ast, ast.Return)]
@@ -602,6 +607,16 @@ def _strict_decode_of(R, g, rd, n, e, src_names):
     """Is expression e (at node n) `<src>.decode('utf-8'[, 'strict'])` or an accepted equivalent?
     returns (verdict, reason) verdict in True / False / None(unrecognised)"""
     o, on = rd.origin(n, e)
+    if isinstance(o, ast.Name) and rd.tuple_def(on, o.id) is not None:
+        td = rd.tuple_def(on, o.id)
+        if td[1] == 0 and isinstance(td[0], ast.Call):
+            o = td[0]
+    if isinstance(o, ast.Name):
+        ds = rd.defs_at(on, o.id)
+        if len(ds) == 1:
+            td = rd.tuple_def(next(iter(ds)), o.id)
+            if td is not None and td[1] == 0 and isinstance(td[0], ast.Call):
+                o, on = td[0], next(iter(ds))
     if not isinstance(o, ast.Call):
         return None, 'text comes from %s' % U(o)
     fn = o.func
